@@ -840,6 +840,9 @@ static long _strtolong(char *str)
 
 static void _doubletotv(struct timeval *tv, double val)
 {
+    /* a time value that does not fit tv_sec cannot be converted */
+    if (val > (double)INT_MAX)
+        _errormsg("time value out of range");
     tv->tv_sec = (val * 10.0)/10; /* crude round-down without -lm */
     tv->tv_usec = ((val - tv->tv_sec) * 1000000.0);
 }
